@@ -849,6 +849,21 @@ func (la *lockAnalysis) externalCall(k ctxKey, site ssa.CallInstruction, c *ssa.
 			}
 			continue
 		}
+		// a function-typed parameter handed on to external code (a helper that arms a timer with the
+		// callback it is given): every function value the module's callers pass for it runs there
+		if prm, ok := a.(*ssa.Parameter); ok {
+			if _, isFunc := prm.Type().Underlying().(*types.Signature); isFunc && prm.Parent() != nil {
+				for _, l := range w.argOrigins(prm.Parent(), paramIdxOf(prm), 0) {
+					if f := funcValue(w.Resolve(l.v)); f != nil {
+						if sync {
+							la.addCtx(ctxKey{f, st}, k, "passed through "+FuncName(prm.Parent())+" to synchronous "+name+" at "+w.InstrPos(site))
+						} else {
+							la.addCtx(ctxKey{f, lsU}, k, "callback handed through "+FuncName(prm.Parent())+" to "+nameOr(name, "external code")+" at "+w.InstrPos(site)+" (runs later, on its own goroutine/stack)")
+						}
+					}
+				}
+			}
+		}
 		if sync && (name == "sort.Sort" || name == "sort.Stable") {
 			if mi, ok := a.(*ssa.MakeInterface); ok {
 				ms := w.Prog.MethodSets.MethodSet(mi.X.Type())
